@@ -35,6 +35,15 @@ std::string handle(const std::string& op, Args& a)
 				o << CDF_Gauss(x, p1, p2);
 		});
 	}
+	if(op == "c07.gauss2d")	  // PDF_Gauss_2D and the two one-dimensional densities it should be the product of
+	{
+		double x = a.dbl(), y = a.dbl(), m1 = a.dbl(), m2 = a.dbl(), s1 = a.dbl(), s2 = a.dbl();
+		a.end();
+		return run([&](Out& o) {
+			std::pair<double, double> mean(m1, m2), sigma(s1, s2);
+			o << PDF_Gauss_2D(x, y, mean, sigma) << PDF_Gauss(x, m1, s1) << PDF_Gauss(y, m2, s2);
+		});
+	}
 	if(op == "c07.gauss_q")
 	{
 		double p = a.dbl(), mu = a.dbl(), s = a.dbl();
